@@ -4,6 +4,7 @@ Every random choice comes from the one random.Random passed in, so a (seed, inde
 replays a case exactly.  Small alphabets on purpose, so that collisions (equal values, paths that
 exist, duplicate keys) happen often.
 """
+import copy
 import datetime as _dt
 
 from wire import FixedOffset
@@ -116,5 +117,5 @@ class Gen(object):
     def operand(self, doc=None, depth=1):
         """a comparison operand: often a value occurring in doc"""
         if doc is not None and self.r.random() < 0.6:
-            return self.r.choice(self.subvalues(doc))
+            return copy.deepcopy(self.r.choice(self.subvalues(doc)))
         return self.value(depth)
